@@ -562,6 +562,23 @@ pub fn run(tier: Tier, replay: Option<&str>) {
             let p1 = format!("{}>{}", r.label, l1);
             local.push(fx(b1));
             present(r, b1, &p1, None, true);
+            // the mutated layout with a MIC that verifies again (layouts no builder produces - FOpts together with
+            // port 0, a flipped direction or flag bit, another FOptsLen - reach the code behind a successful check)
+            if !l1.starts_with("flip-mic") && !l1.starts_with("trunc") && !l1.starts_with("append")
+                && let Ok(dv) = refcodec::parse_data(b1)
+            {
+                let mut b = b1.clone();
+                let n = b.len();
+                let dir = if dv.uplink() { 0 } else { 1 };
+                let wire = dv.fcnt16 as u32;
+                let y = (r.fcnt & 0xFFFF_0000) | wire;
+                let mic = refcodec::data_mic(&KEYS[r.nwk], dir, dv.devaddr, y, &b[..n - 4]);
+                b[n - 4..].copy_from_slice(&mic);
+                let ry = Root { bytes: b.clone(), desc: None, nwk: r.nwk, app: r.app, fcnt: y, label: format!("{p1}>remic"), sweep: false };
+                local.push(fx(&b));
+                transitions.fetch_add(1, Ordering::Relaxed);
+                present(&ry, &b, &ry.label, None, false);
+            }
             if th {
                 let m2 = mutations(b1);
                 transitions.fetch_add(m2.len() as u64, Ordering::Relaxed);
@@ -621,7 +638,7 @@ pub fn run(tier: Tier, replay: Option<&str>) {
         "samples": samples,
         "evaluations": ctx.evals(),
         "distinct_nontrivial": nstates,
-        "rule": "states = distinct byte strings executed on the real parser at mutation depth <= 1 from every root (frames with every FPort 1..255 are presented unmutated) plus every byte string of length 0..maxlen (counted exactly); depth-2 strings are counted separately as generated (duplicates possible); transitions = mutation edges applied; every root is also presented with its MIC recomputed for five counters whose low half differs from the wire counter / of the next epoch; every state is presented under key sets {right, swapped, wrong} x counter hints {N, N+-0x10000, low half off, 0}; after every successful checked decode the buffer is compared with the two-call path and decrypted again (must restore the received bytes)",
+        "rule": "states = distinct byte strings executed on the real parser at mutation depth <= 1 from every root (frames with every FPort 1..255 are presented unmutated) plus every byte string of length 0..maxlen (counted exactly); depth-2 strings are counted separately as generated (duplicates possible); transitions = mutation edges applied; every structural mutation is also presented with a MIC that verifies again; every root is also presented with its MIC recomputed for five counters whose low half differs from the wire counter / of the next epoch; every state is presented under key sets {right, swapped, wrong} x counter hints {N, N+-0x10000, low half off, 0}; after every successful checked decode the buffer is compared with the two-call path and decrypted again (must restore the received bytes)",
         "roots": roots.len(),
         "depth": if th { 2 } else { 1 },
         "depth2_strings_generated": depth2.load(Ordering::Relaxed),
